@@ -720,6 +720,8 @@ def rule_trunc_err(ctx, cfg, F):
                 lt = f.term(r.block)
                 if _root_local(f, tr, lt["args"][0]) in bufs:
                     return True
+                if (lt.get("generics") or [""])[0] == "u8":
+                    return True         # the payload buffer held in a struct field (`self.data.len()`)
         return False
 
     def is_recv_res(op):
